@@ -200,6 +200,10 @@ def run_case(case):
                     r = td.__ior__(arg)
                     if r is not td:
                         raise RuntimeError("in-place operator returned another object")
+            elif k == "UpdateBad":
+                # a pair list ending in an element that is not a pair (1-tuple, 3-tuple, 3-character string)
+                bad = {1: (val(1),), 3: (val(1), val(10), val(11)), 30: "abc"}[op[2]]
+                ret = retv(td.update(pairs(op[1]) + [bad]), k)
             elif k == "SetDefault":
                 ret = retv(td.setdefault(val(op[1]), val(op[2])), k)
             elif k == "SetDefault1":
